@@ -145,8 +145,8 @@ fn perturb(l: &L, rep: &mut Report) {
     let lm = menu::lmsg(1, if matches!(l, L::ErrorCode(..) | L::AddressErrorCode(..)) { 3 } else { 2 }, tid, vec![l.clone(), L::Priority(7)]);
     let base = ref_encode(&lm, None);
     let dec = cu::decoder(Opts::none(), None);
-    let canon = match cu::decode_with(&dec, &base) {
-        Ok(Ok((d, _))) => d,
+    let (canon, canon_msg) = match cu::decode_with(&dec, &base) {
+        Ok(Ok((d, m))) => (d, m),
         _ => return, // not decodable canonically: C01's business
     };
     let ig = ignorable(l, &tid);
@@ -161,8 +161,20 @@ fn perturb(l: &L, rep: &mut Report) {
     let mut try_one = |mutant: Vec<u8>, what: &str, rep: &mut Report| {
         rep.eval();
         match cu::decode_with(&dec, &mutant) {
-            Ok(Ok((d, _))) if d == canon => {
-                rep.nontrivial(&mutant);
+            Ok(Ok((d, m))) if d == canon => {
+                // also equal by the value types' own equality (ignorable bits must not be kept inside the value)
+                let native_ok = m.attributes().len() == canon_msg.attributes().len()
+                    && m.attributes().iter().zip(canon_msg.attributes().iter()).all(|(x, y)| cu::native_eq(x, y) != Some(false));
+                if native_ok {
+                    rep.nontrivial(&mutant);
+                } else {
+                    let off = mutant.iter().zip(base.iter()).position(|(a, b)| a != b).unwrap_or(0);
+                    rep.violate(
+                        format!("ignorable-bits-kept-in-decoded-value/{}", region(&lm, off, &base)),
+                        format!("{} ({}): decoded value differs from the canonical one by the type's own equality", what, l.show()),
+                        json!({"kind": "bytes", "canonical": hex(&base), "perturbed": hex(&mutant)}),
+                    );
+                }
             }
             other => {
                 let why = match other {
@@ -406,6 +418,12 @@ pub fn run(ctx: &RunCtx) -> i32 {
             }
             r.sym_n("sweep-string-lengths", 510);
         }),
+        Box::new(|r| {
+            for lm in menu::extra_sweep_msgs() {
+                diff(&lm, None, r);
+            }
+            r.sym_n("sweep-non-last-lengths-addresses-bits-lists", 1);
+        }),
         Box::new(|r| vectors(r)),
     ];
     sweeps.par_iter().for_each(|f| {
@@ -443,12 +461,12 @@ pub fn run(ctx: &RunCtx) -> i32 {
         rep,
         Finish {
             level: "exploration",
-            rule: format!("library bytes compared with the independent reference writer for every message with 0..=2 body attributes over the {}-entry menu x 8 tails (thorough: triples with the full tail), all 16384 message types both directions, XOR attributes under 123 transaction ids, 400 error codes, u16 / ICMP / string-length sweeps, RFC 5769 vectors (both parsers, re-encoded with the vector's padding byte); every ignorable byte of every menu attribute set to 5 patterns, every ignorable bit alone, all together, all 2^k subsets when k<=10. Non-trivial = bytes equal / perturbed message decodes to the canonical value", n),
+            rule: format!("library bytes compared with the independent reference writer for every message with 0..=2 body attributes over the {}-entry menu x 8 tails (thorough: triples with the full tail), all 16384 message types both directions, XOR attributes under 123 transaction ids, 400 error codes, u16 / ICMP / string-length sweeps, the non-last-attribute sweeps (every blob / string length, walking address bytes, single-bit integers, list lengths 0..=8), RFC 5769 vectors (both parsers, re-encoded with the vector's padding byte); every ignorable byte of every menu attribute set to 5 patterns, every ignorable bit alone, all together, all 2^k subsets when k<=10. Non-trivial = bytes equal / perturbed message decodes to the canonical value (by public accessors and by the value types' own equality)", n),
             assumptions: vec![
                 "R-codec follows the library for two RFC ambiguities: the last PASSWORD-ALGORITHMS entry is padded by the attribute padding, RESPONSE-PORT has length 2".into(),
                 "reference codec written from the RFCs by the harness author; checked against RFC 5769 vectors at start-up".into(),
             ],
-            required_symbols: vec!["sweep-message-types", "sweep-xor-ids", "rfc5769-vectors", "perturbed-attributes", "full-subset-walks", "ErrorCode"],
+            required_symbols: vec!["sweep-message-types", "sweep-non-last-lengths-addresses-bits-lists", "sweep-xor-ids", "rfc5769-vectors", "perturbed-attributes", "full-subset-walks", "ErrorCode"],
             min_outcomes: 2,
             exhaustive: true,
             bounds: json!({"L": if thorough {3} else {2}, "menu": n}),
